@@ -56,6 +56,10 @@ def run(ctx):
     if ctx.replay:
         d = ctx.replay["failure"]["desc"]
         tasks.insert(0, {"id": "replay", "world": d["world"], "op": d["op"], "args": d["args"], "group": catalogue.OPS[d["op"]]["group"]})
+    if ctx.tier == "thorough":
+        # the unsigned index dtypes are further argument-type signatures of every kernel
+        extra = matrix.gen_tasks(rng, 8, "quick", dtypes=["uint32", "uint64"])
+        tasks += [t for t in extra if t["op"] not in ("from_array", "conversion", "from_dem", "slope", "spread2d", "gis_utils")]
     for t in tasks:
         t["timeout"] = 400
     interp = matrix.run_workers(tasks, "plain", {"NUMBA_DISABLE_JIT": "1"}, nproc=4)
@@ -65,7 +69,7 @@ def run(ctx):
         a, b = interp[t["id"]], jit[t["id"]]
         ctx.evaluations += 1
         ctx.count("op:" + t["op"])
-        desc = {"op": t["op"], "args": t["args"], "world": t["world"]}
+        desc = {"op": t["op"], "args": t["args"], "world": t["world"], "dtype": t.get("dtype")}
         if len(ctx.samples) < 3:
             ctx.samples.append({"op": t["op"], "args": t["args"], "shape": t["world"]["shape"]})
         for r in (a, b):
@@ -73,6 +77,16 @@ def run(ctx):
                 raise RuntimeError(f"harness failure in worker: {r}")
         if b.get("status") in ("worker-died",) or a.get("status") == "worker-died":
             ctx.fail(desc, "spec", f"worker died: interp={a.get('status')} jit={b.get('status')} {b.get('msg', '')}")
+            continue
+        if t.get("dtype") == "uint64" and a.get("status") == "ok" and b.get("status") == "exc" and b.get("exc") == "TypingError" \
+                and not affine_typing(b):
+            ctx.failures.append({"desc": desc, "kind": "spec", "sig": "jit-uint64-typing",
+                                 "what": f"{t['op']} with uint64 indices does not compile under the JIT: {b.get('msg')}"})
+            continue
+        if t.get("dtype") in ("uint32", "uint64") and t["op"] == "dem_dig_d4" and a.get("status") == "ok" \
+                and b.get("status") == "exc" and b.get("exc") == "ValueError" and "not in list" in b.get("msg", ""):
+            ctx.failures.append({"desc": desc, "kind": "spec", "sig": "jit-unsigned-dig-d4",
+                                 "what": f"dem_dig_d4 with {t['dtype']} indices raises under the JIT only: {b.get('msg')}"})
             continue
         if affine_typing(b) and a.get("status") == "ok":
             affine_ops.add(t["op"])
